@@ -605,7 +605,8 @@ func (vc *VC) maxLen() *Term {
 	if vc.isBV() {
 		return BVLit(pow2(40), 64)
 	}
-	return IntLit(pow2(40))
+	// int mode: lengths are unbounded mathematical integers (allocation is assumed to succeed)
+	return IntLit(pow2(62))
 }
 
 // ---------------------------------------------------------------- loads and stores
@@ -887,7 +888,14 @@ func (fr *frame) execInstr(st *State, in ssa.Instruction) {
 	case *ssa.MakeSlice:
 		ln := vc.toIdx(fr.term(st, in.Len), in.Len.Type())
 		cp := vc.toIdx(fr.term(st, in.Cap), in.Cap.Type())
-		vc.oblige("safety.make", st, And(vc.iCmp(">=", ln, vc.idx(0), true), vc.iCmp("<=", ln, cp, true), vc.iCmp("<=", cp, vc.maxLen(), true)), in.Pos(), "makeslice: len/cap out of range")
+		mk := And(vc.iCmp(">=", ln, vc.idx(0), true), vc.iCmp("<=", ln, cp, true))
+		if vc.isBV() {
+			mk = And(mk, vc.iCmp("<=", cp, vc.maxLen(), true))
+		} else {
+			vc.assumed["allocation of any non-negative size is assumed to succeed (int mode)"] = true
+			vc.assume(st.guard, Implies(mk, vc.iCmp("<=", cp, vc.maxLen(), true)))
+		}
+		vc.oblige("safety.make", st, mk, in.Pos(), "makeslice: len/cap out of range")
 		r := vc.allocRef(st, "make")
 		et := in.Type().Underlying().(*types.Slice).Elem()
 		key, hs := vc.elemKey(et)
